@@ -10,6 +10,7 @@ import GomlVerif.Driver.C11
 import GomlVerif.Driver.C19
 import GomlVerif.Driver.C13
 import GomlVerif.Driver.C16
+import GomlVerif.Driver.SrcRun
 import GomlVerif.Driver.C09
 
 def main (args : List String) : IO UInt32 := do
@@ -28,5 +29,6 @@ def main (args : List String) : IO UInt32 := do
   | ["c19"] => Goml.Driver.C19.main; return 0
   | ["c13"] => Goml.Driver.C13.main; return 0
   | ["c16"] => Goml.Driver.C16.main; return 0
+  | ["srcsem"] => Goml.Driver.SrcRun.main; return 0
   | ["c09"] => Goml.Driver.C09.main; return 0
   | _ => IO.eprintln "usage: gomlmodel <c05|…> < lines"; return 2
